@@ -213,6 +213,12 @@ def names_case(draw, tier="quick"):
         # wide tables (the repr elides the middle columns) over a few bases, so that repeats straddle the elided part
         w = draw(st.integers(11, 22))
         names = draw(st.lists(st.sampled_from(["dup x", "dup_x", "a", "b", "c", "d", "e", "f", "g", None, "h", "i"]), min_size=w, max_size=w))
+    elif draw(st.integers(0, 3)) == 0:
+        # columns named like the public API (methods, properties, classmethods)
+        api = sorted({n for cls in (S.Table, S.Vector) for n in dir(cls) if not n.startswith("_")})
+        w = draw(st.integers(1, 4))
+        names = draw(st.lists(st.one_of(st.sampled_from(api), st.sampled_from(api).map(str.upper), st.sampled_from(api).map(lambda x: x + "!")),
+                              min_size=w, max_size=w))
     else:
         w = draw(st.integers(1, 12))
         names = draw(st.lists(st.one_of(V.collision_names, st.text(max_size=8), st.none(),
